@@ -183,6 +183,8 @@ def warm(plan):
     scen = warm_plan["scenario"]
     scen.setdefault("home", home_dir())
     scen["families"] = {"durations": "unit"}
+    if scen.get("tool"):
+        return  # tools parse with their own parameter sets: every run warms itself
     scen["epochs"] = [dict(e, crash_at=None, world_ops=None) for e in (scen.get("epochs") or [{}])][:1] + \
         [dict(e, crash_at=None, world_ops=None) for e in (scen.get("epochs") or [{}])[1:] if e.get("replay")]
     scen["step_budget"] = 20000
